@@ -181,9 +181,9 @@ class ValidationContext:
         for attr in iter_class_slots(self):
             setattr(context, attr, getattr(self, attr))
 
-        context.errors = self.errors.copy()
-        context.id_map = self.id_map.copy()
-        context.identities = self.identities.copy()
+        # The copy is used for validating a subtree with a different validation mode or
+        # with other inherited attributes: collected errors, ID counters and identities
+        # belong to the whole validation run, so they are shared with the original.
         context.inherited = self.inherited.copy()
         context.id_list = self.id_list if self.id_list is None else self.id_list.copy()
 
